@@ -112,40 +112,6 @@ func countHTMLEscapes(b []byte) int {
 	return n
 }
 
-func validUTF8(b []byte) bool {
-	for i := 0; i < len(b); {
-		c := b[i]
-		switch {
-		case c < 0x80:
-			i++
-		case c >= 0xC2 && c <= 0xDF:
-			if i+1 >= len(b) || b[i+1]&0xC0 != 0x80 {
-				return false
-			}
-			i += 2
-		case c >= 0xE0 && c <= 0xEF:
-			if i+2 >= len(b) || b[i+1]&0xC0 != 0x80 || b[i+2]&0xC0 != 0x80 {
-				return false
-			}
-			if c == 0xE0 && b[i+1] < 0xA0 || c == 0xED && b[i+1] >= 0xA0 {
-				return false
-			}
-			i += 3
-		case c >= 0xF0 && c <= 0xF4:
-			if i+3 >= len(b) || b[i+1]&0xC0 != 0x80 || b[i+2]&0xC0 != 0x80 || b[i+3]&0xC0 != 0x80 {
-				return false
-			}
-			if c == 0xF0 && b[i+1] < 0x90 || c == 0xF4 && b[i+1] >= 0x90 {
-				return false
-			}
-			i += 4
-		default:
-			return false
-		}
-	}
-	return true
-}
-
 // refIndent: independent re-indentation of a compact well-formed JSON text (the format of encoding/json.Indent with an empty prefix).
 func refIndent(src []byte, indent []byte) []byte {
 	var out []byte
